@@ -346,6 +346,15 @@ Definition coded_calls : calls :=
   {| call_single := {| cs_rows := QTgt DRow; cs_cols := QTgt DCol; cs_times := QAbsent |};
      call_multi := {| cs_rows := QTgt DRow; cs_cols := QTgt DCol; cs_times := QTgt DTime |} |}.
 
+(* ---- how the declared weights reach the fitness function (regenerated: Gen_C11.src_weights):
+   is _configure_weights called for single-readout / time-domain targets, and to which shape is a
+   scalar weight expanded in ModelFittingDataTree.fitness *)
+Inductive wshape := ShTarget | ShDetector.    (* target_data.shape / (geometry.row, geometry.col) *)
+Record wconf := { wc_single : bool; wc_multi : bool; wc_shape : wshape }.
+Definition coded_wconf : wconf := {| wc_single := true; wc_multi := true; wc_shape := ShTarget |}.
+(* the tree before the repairs: weights dropped for time-domain targets, detector-shaped scalar weights *)
+Definition legacy_wconf : wconf := {| wc_single := true; wc_multi := false; wc_shape := ShDetector |}.
+
 (* ---- the problem object *)
 Inductive wspec := WNone | WScalar (ws : list Q) | WFile (fs : list frame3).
 
@@ -424,13 +433,16 @@ Definition ctor_check (ck : checker) (cl : calls) (c : fconf) (sims : list frame
         (qty_val tsh dsh (cs_times cs)).
 
 (* problem = ModelFittingDataTree(...); problem.fitness(x), given the simulated frame of every processor *)
-Definition model_fit (ck : checker) (cl : calls) (c : fconf) (sims : list frame3) : fobs :=
+Definition weights_kept (wc : wconf) (c : fconf) : wspec :=
+  if (if fc_multi c then wc_multi wc else wc_single wc) then fc_w c else WNone.
+
+Definition model_fit (ck : checker) (cl : calls) (wc : wconf) (c : fconf) (sims : list frame3) : fobs :=
   match fc_trng c with
   | FR3 _ _ _ => OCtor          (* readout_times=None -> ValueError, or isel(time=...) on dims (processor, readout_time, y, x) *)
   | FR2 tr tc =>
       match (if fc_bypass c then Accept else ctor_check ck cl c sims) with
       | Accept =>
-          let w := if fc_multi c then WNone else fc_w c in      (* _configure_weights only on the single-readout path *)
+          let w := weights_kept wc c in
           let tg := map (fun f => map (slice2 tr tc) f) (fc_tgts c) in
           let '(ot, orow, ocol) := out_slices (fc_orng c) in
           let shapes_agree :=
@@ -438,10 +450,11 @@ Definition model_fit (ck : checker) (cl : calls) (c : fconf) (sims : list frame3
                      shape_eqb (shape3 (slice3 ot orow ocol s)) (shape3 t))
                     (combine sims tg) in
           let chi_scalar_sub :=
-            match fc_ff c, w with
-            | FChi _, WScalar _ => negb ((nth_shape (shape3 (hd [] tg)) 1 =? fc_drows c)%Z
-                                         && (nth_shape (shape3 (hd [] tg)) 2 =? fc_dcols c)%Z)
-            | _, _ => false
+            (* a detector-shaped scalar weight cannot divide a smaller region (numpy broadcasting error) *)
+            match wc_shape wc, fc_ff c, w with
+            | ShDetector, FChi _, WScalar _ => negb ((nth_shape (shape3 (hd [] tg)) 1 =? fc_drows c)%Z
+                                                     && (nth_shape (shape3 (hd [] tg)) 2 =? fc_dcols c)%Z)
+            | _, _, _ => false
             end in
           if negb shapes_agree || chi_scalar_sub then OUndef
           else fobs_of (fitness_loop (term_coded c w) sims tg)
@@ -551,10 +564,10 @@ Definition is_exact (f : fitfun) : bool := match f with FChi _ => false | _ => t
 
 Record fit_case := { ft_c : fconf; ft_sims : list frame3; ft_obs : fobs }.
 
-Definition fit_mismatch (ck : checker) (cl : calls) (x : fit_case) : bool :=
-  negb (fobs_agree (is_exact (fc_ff (ft_c x))) (model_fit ck cl (ft_c x) (ft_sims x)) (ft_obs x)).
-Definition fit_mismatches (ck : checker) (cl : calls) (xs : list fit_case) : list Z :=
-  indices_where (fit_mismatch ck cl) xs 0.
+Definition fit_mismatch (ck : checker) (cl : calls) (wc : wconf) (x : fit_case) : bool :=
+  negb (fobs_agree (is_exact (fc_ff (ft_c x))) (model_fit ck cl wc (ft_c x) (ft_sims x)) (ft_obs x)).
+Definition fit_mismatches (ck : checker) (cl : calls) (wc : wconf) (xs : list fit_case) : list Z :=
+  indices_where (fit_mismatch ck cl wc) xs 0.
 
 Definition fit_violation (x : fit_case) : bool :=
   match spec_fit (ft_c x) (ft_sims x) with
